@@ -181,3 +181,130 @@ def oracle(r, order):
 def coq_case(outcomes, order):
     oc = {'ok': 'POk', 'invalid': 'PInvalid', 'connerr': 'PConnErr', 'noconn': 'PNoConn', 'shut': 'PShut', 'same': 'PSame'}
     return '[%s]' % '; '.join(oc[o] for o in outcomes), '[%s]' % '; '.join('%d%%nat' % i for i in order)
+
+
+# ------------------------------------------------------------------------------------------------------------------
+# Pool creation racing with keyspace switches: the REAL body of Session.add_or_renew_pool (run_add_or_renew_pool)
+KSN = {0: None, 1: 'ks1', 2: 'ks2', 3: 'ks3'}
+KSI = {v: k for k, v in KSN.items()}
+
+
+class CreateSession(KsSession):
+    _protocol_version = 4
+
+    class _PM(object):
+        def distance(self, host):
+            from cassandra.policies import HostDistance
+            return HostDistance.LOCAL
+    _profile_manager = _PM()
+
+
+class CreateRun(object):
+    """ks0: session keyspace before; n0 registered pools; s0 / s1: switches landing during connection_factory (before the new
+    pool reads session.keyspace) / during the new connection's blocking USE (after the read, before registration);
+    rounds[k]: switches landing during the k-th catch-up USE round trip (session lock released)."""
+
+    def __init__(self, ks0, n0, s0, s1, rounds):
+        import cassandra.pool as P
+        import cassandra.cluster as C
+        from cassandra.policies import HostDistance
+        from cassandra.protocol import ResultMessage
+        run = self
+        Base = H.make_conn_class(Stub())
+
+        class Conn(Base):
+            def wait_for_responses(self, *msgs, **kw):
+                run.at_blocking_use(self)
+                return [ResultMessage(kind=3) for _ in msgs]
+
+            def push(self, data):
+                run.at_push(self)
+        self.C, self.P, self.RM = C, P, ResultMessage
+        self.cluster = KsCluster(Conn)
+        self.cluster.connect_timeout = 0.05
+        real_factory = self.cluster.connection_factory
+
+        def factory(endpoint, *a, **kw):
+            run.at_factory()
+            return real_factory(endpoint, *a, **kw)
+        self.cluster.connection_factory = factory
+        self.session = CreateSession(self.cluster)
+        self.session.keyspace = KSN[ks0]
+        self.phase = 'setup'
+        self.s0, self.s1, self.rounds = list(s0), list(s1), [list(r) for r in rounds]
+        self.round_trips = 0
+        self.switch_results = []
+        self.new_conn = None
+        for i in range(n0):
+            host = KsHost(i)
+            self.session._pools[host] = P.HostConnection(host, HostDistance.LOCAL, self.session)
+        self.new_host = KsHost(n0)
+        self.phase = 'create'
+        self.result = None
+
+    def switch(self, k):
+        self.C.Session._set_keyspace_for_all_pools(self.session, KSN[k], lambda errors: self.switch_results.append(canon_errors(errors)))
+
+    def deliver_ok(self, conn):
+        rid, (cb, _, _) = conn._requests.popitem()
+        with conn.lock:
+            conn.request_ids.append(rid)
+        cb(self.RM(kind=3))
+
+    def at_factory(self):
+        if self.phase == 'create' and self.s0 is not None:
+            todo, self.s0 = self.s0, None
+            for k in todo:
+                self.switch(k)
+
+    def at_blocking_use(self, conn):
+        if self.phase == 'create' and self.s1 is not None:
+            self.new_conn = conn
+            todo, self.s1 = self.s1, None
+            for k in todo:
+                self.switch(k)
+
+    def at_push(self, conn):
+        registered = any(p._connection is conn for p in self.session._pools.values())
+        if self.phase == 'create' and not registered:
+            k = self.round_trips
+            self.round_trips += 1
+            if k < len(self.rounds):
+                for ks in self.rounds[k]:
+                    self.switch(ks)
+        self.deliver_ok(conn)
+
+    def create(self):
+        self.C.Session.add_or_renew_pool(self.session, self.new_host, False)
+        fn, args = self.session.queue.pop(0)
+        self.result = fn(*args)
+        self.phase = 'done'
+        return self
+
+    def observe(self):
+        """[registered?, session keyspace, new pool._keyspace, keyspace of its connection, catch-up round trips]"""
+        p = self.session._pools.get(self.new_host)
+        if p is None:
+            return [0, KSI.get(self.session.keyspace, 9), -1, -1, self.round_trips]
+        return [1, KSI.get(self.session.keyspace, 9), KSI.get(p._keyspace, 9), KSI.get(p._connection.keyspace, 9) if p._connection else -1, self.round_trips]
+
+    def oracle(self):
+        out = []
+        if any(self.switch_results_ok()) or True:
+            sk = self.session.keyspace
+            for host, p in self.session._pools.items():
+                if p.is_shutdown or p._connection is None:
+                    continue
+                if all(not r for r in self.switch_results) and sk and (p._connection.keyspace != sk or p._keyspace != sk):
+                    key = 'Session.add_or_renew_pool.registered-on-stale-keyspace' if host is self.new_host else 'Session._set_keyspace_for_all_pools.success-but-not-applied'
+                    out.append((key, 'every keyspace switch reported success and the session keyspace is %r, but the pool of %r is registered with '
+                                '_keyspace %r and its connection has %r selected' % (sk, host, p._keyspace, p._connection.keyspace), 'C20_new_pool_matches_session'))
+        return out
+
+    def switch_results_ok(self):
+        return [not r for r in self.switch_results]
+
+
+def create_coq(ks0, s0, s1, rounds):
+    zl = lambda l: '[%s]' % '; '.join(str(x) for x in l)
+    return 'create_obs %d %s %s [%s]' % (ks0, zl(s0), zl(s1), '; '.join(zl(r) for r in rounds))
